@@ -44,11 +44,17 @@ func runC25(r *Report) {
 			var checkBlock *ssa.BasicBlock
 			for _, g := range DomGuards(s.Block) {
 				x, op, y, ok := CmpGuard(g)
-				if !ok || op != token.EQL || !IsNilConst(y) {
+				if !ok || op != token.EQL {
 					continue
 				}
-				if c, isc := x.(*ssa.Call); isc && CalleeName(c) == DS+"check" {
+				if c, isc := x.(*ssa.Call); isc && IsNilConst(y) && CalleeName(c) == DS+"check" {
 					checkBlock = c.Block()
+				}
+				// the same test written out: atomic.LoadUint32(&c.mark) == 0
+				if c, isc := x.(*ssa.Call); isc && CalleeName(c) == "sync/atomic.LoadUint32" && IsFieldAddr(c.Call.Args[0], "rueidis.dedicatedSingleClient", "mark") {
+					if k, isk := ConstInt(y); isk && k == 0 {
+						checkBlock = c.Block()
+					}
 				}
 			}
 			ok := checkBlock != nil
@@ -186,36 +192,67 @@ func storeCleaningRules(r *Report, rule string) {
 		return
 	}
 	stores := CallSites(st, "rueidis.(*pool).Store")
-	if !r.Anchor(rule, "dpool.Store in mux.Store", len(stores) == 1) {
+	if !r.Anchor(rule, "dpool.Store in mux.Store", len(stores) >= 1) {
 		return
 	}
-	ps := stores[0]
-	before := func(names ...string) (Site, bool) {
-		for _, s := range CallSites(st, names...) {
-			if Dominates(s, ps) {
-				return s, true
+	// the flag: a condition derived from GetPubSubHooks().onInvalidations, read before the hooks are reset
+	resets := CallSites(st, "iface:rueidis.wire.SetPubSubHooks")
+	flagGuard := func(g Guard) (installed bool, ok bool) {
+		var get *ssa.Call
+		DependsOn(g.Cond, func(v ssa.Value) bool {
+			if c, isc := v.(*ssa.Call); isc && CalleeName(c) == "iface:rueidis.wire.GetPubSubHooks" {
+				get = c
+			}
+			return false
+		})
+		if get == nil || !strings.Contains(DescDeep(g.Cond), "onInvalidations") {
+			return false, false
+		}
+		for _, rs := range resets {
+			if !Dominates(SiteOf(get), rs) {
+				return false, false // read after the reset: always finds none
 			}
 		}
-		return Site{}, false
+		pol := g.Pol
+		if x, op, y, cok := CmpGuard(g); cok && IsNilConst(y) {
+			_ = x
+			pol = op == token.NEQ
+		}
+		return pol, true
 	}
-	reset, okReset := before("iface:rueidis.wire.SetPubSubHooks")
-	if okReset {
-		// the argument is the zero PubSubHooks
-		arg := reset.Call().Common().Args[0]
-		c, isc := arg.(*ssa.Const)
-		okReset = isc && c.Value == nil
-		if !okReset {
-			if u, isu := arg.(*ssa.UnOp); isu {
-				if al, isal := u.X.(*ssa.Alloc); isal {
-					okReset = true
-					for _, ref := range *al.Referrers() {
-						if _, isst := ref.(*ssa.Store); isst {
-							okReset = false
-						}
-						if fa, isfa := ref.(*ssa.FieldAddr); isfa {
-							for _, rr := range *fa.Referrers() {
-								if _, isst := rr.(*ssa.Store); isst {
-									okReset = false
+	isOff := func(in ssa.Instruction) bool {
+		c, ok := in.(*ssa.Call)
+		return ok && CalleeName(c) == "iface:rueidis.wire.Do" && strings.HasSuffix(Desc(c.Call.Args[len(c.Call.Args)-1]), "cmds.ClientTrackingOffCmd")
+	}
+	for _, ps := range stores {
+		ps := ps
+		before := func(names ...string) (Site, bool) {
+			for _, s := range CallSites(st, names...) {
+				if Dominates(s, ps) {
+					return s, true
+				}
+			}
+			return Site{}, false
+		}
+		reset, okReset := before("iface:rueidis.wire.SetPubSubHooks")
+		if okReset {
+			// the argument is the zero PubSubHooks
+			arg := reset.Call().Common().Args[0]
+			c, isc := arg.(*ssa.Const)
+			okReset = isc && c.Value == nil
+			if !okReset {
+				if u, isu := arg.(*ssa.UnOp); isu {
+					if al, isal := u.X.(*ssa.Alloc); isal {
+						okReset = true
+						for _, ref := range *al.Referrers() {
+							if _, isst := ref.(*ssa.Store); isst {
+								okReset = false
+							}
+							if fa, isfa := ref.(*ssa.FieldAddr); isfa {
+								for _, rr := range *fa.Referrers() {
+									if _, isst := rr.(*ssa.Store); isst {
+										okReset = false
+									}
 								}
 							}
 						}
@@ -223,45 +260,54 @@ func storeCleaningRules(r *Report, rule string) {
 				}
 			}
 		}
-	}
-	r.ObSite(rule, ps, "hooks-reset-before-pooling", okReset, "the Pub/Sub hooks are reset (SetPubSubHooks(PubSubHooks{})) before the wire is pooled")
-	_, okClean := before("iface:rueidis.wire.CleanSubscriptions")
-	r.ObSite(rule, ps, "subscriptions-cleaned-before-pooling", okClean, "subscriptions are cleaned before the wire is pooled")
-	// tracking off
-	offs := Sites(st, func(in ssa.Instruction) bool {
-		c, ok := in.(*ssa.Call)
-		if !ok || CalleeName(c) != "iface:rueidis.wire.Do" {
-			return false
+		r.ObSite(rule, ps, "hooks-reset-before-pooling", okReset, "the Pub/Sub hooks are reset (SetPubSubHooks(PubSubHooks{})) before the wire is pooled")
+		_, okClean := before("iface:rueidis.wire.CleanSubscriptions")
+		r.ObSite(rule, ps, "subscriptions-cleaned-before-pooling", okClean, "subscriptions are cleaned before the wire is pooled")
+		// tracking off: no path reaches this pooling with the callback installed and without the command
+		bad := false
+		type state struct {
+			b    *ssa.BasicBlock
+			done bool
 		}
-		return strings.HasSuffix(Desc(c.Call.Args[len(c.Call.Args)-1]), "cmds.ClientTrackingOffCmd")
-	})
-	okOff := len(offs) == 1
-	if okOff {
-		off := offs[0]
-		okOff = reachesBlock(off.Block, ps.Block) && !reachesBlock(ps.Block, off.Block)
-		// guarded by a flag that was read from GetPubSubHooks before the hooks were reset
-		flagOK := false
-		for _, g := range DomGuards(off.Block) {
-			if !g.Pol {
-				continue
-			}
-			var get *ssa.Call
-			DependsOn(g.Cond, func(v ssa.Value) bool {
-				if c, ok := v.(*ssa.Call); ok && CalleeName(c) == "iface:rueidis.wire.GetPubSubHooks" {
-					get = c
+		seen := map[state]bool{}
+		var walk func(b *ssa.BasicBlock, from int, done bool)
+		walk = func(b *ssa.BasicBlock, from int, done bool) {
+			for i := from; i < len(b.Instrs); i++ {
+				if isOff(b.Instrs[i]) {
+					done = true
 				}
-				return false
-			})
-			if get != nil && okReset && strings.Contains(DescDeep(g.Cond), "onInvalidations") {
-				gs := SiteOf(get)
-				if Dominates(gs, reset) {
-					flagOK = true
+				if b.Instrs[i] == ps.Instr {
+					if !done {
+						bad = true
+					}
+					return
 				}
 			}
+			for k, sc := range b.Succs {
+				d := done
+				if iff, isif := b.Instrs[len(b.Instrs)-1].(*ssa.If); isif {
+					if installed, ok := flagGuard(normGuard(Guard{iff.Cond, k == 0, b})); ok && !installed {
+						d = true // nothing was installed: nothing to switch off
+					}
+				}
+				if !seen[state{sc, d}] {
+					seen[state{sc, d}] = true
+					walk(sc, 0, d)
+				}
+			}
 		}
-		okOff = okOff && flagOK
+		walk(st.Blocks[0], 0, false)
+		// and the command is sent only when something was installed (as read before the reset)
+		okOff := !bad && okReset
+		nOff := 0
+		for _, off := range Sites(st, isOff) {
+			nOff++
+			g := Guarded(off.Block, func(g Guard) bool { installed, ok := flagGuard(g); return ok && installed })
+			okOff = okOff && g
+		}
+		okOff = okOff && nOff >= 1
+		r.ObSite(rule, ps, "tracking-off-before-pooling", okOff, "when an invalidation callback had been installed - as read from the wire's hooks before they are reset - CLIENT TRACKING OFF is sent before the wire is pooled; reading the hooks after the reset always finds none, and the next user inherits a tracking connection")
 	}
-	r.ObSite(rule, ps, "tracking-off-before-pooling", okOff, "when an invalidation callback had been installed - as read from the wire's hooks before they are reset - CLIENT TRACKING OFF is sent before the wire is pooled; reading the hooks after the reset always finds none, and the next user inherits a tracking connection")
 }
 
 func runC27(r *Report) {
